@@ -40,7 +40,7 @@ case "$ID" in
     fi
     # a property may have a bounded-exhaustive content part (engine E2) next to its E1 part;
     # it writes evidence/parts/<ID>.e2.json, which the E1 run merges into the evidence file
-    EVD=evidence; [ "$VERIF_REPO" != /repo ] && EVD=/var/tmp/verif-evidence-alt
+    EVD=evidence; [ "$VERIF_REPO" != /repo ] && EVD=/var/tmp/verif-evidence-alt/$(basename $VERIF_REPO)
     rm -f $EVD/parts/$ID.e2.json
     PARTDIR=${lid}e2; [ -d seq/$PARTDIR ] || PARTDIR=$lid
     if [ -d seq/$PARTDIR ]; then
